@@ -5,6 +5,7 @@ import (
 	"go/constant"
 	"go/token"
 	"go/types"
+	"reflect"
 	"sort"
 	"strings"
 
@@ -466,7 +467,123 @@ func c18(c *Ctx) {
 				"a hand-written "+fi.Obj.Name()+" on a type of package robust changes how legacy JSON log entries and snapshots decode (numbers through float64 lose ids above 2^53; a different spelling is not understood by older nodes): the same bytes no longer decode to the same message on every node")
 		}
 	}
+	// F1c the decoder stores what it decoded: in NewMessageFromBytes a field of the message is assigned from the decoded record
+	// (a selection from a value of a pb type), with the one documented exception — the id that defaults to the raft index.
+	// A decoder that "resolves" a legacy convention at decode time makes the re-encoded entry differ from the stored one
+	if nm := c.P.Func("robust.NewMessageFromBytes"); nm != nil && nm.Body() != nil {
+		info := nm.Info()
+		msgT := c.P.Named("robust", "Message")
+		nAs := 0
+		ast.Inspect(nm.Body(), func(n ast.Node) bool {
+			as, ok := n.(*ast.AssignStmt)
+			if !ok || len(as.Lhs) != len(as.Rhs) {
+				return true
+			}
+			for i, l := range as.Lhs {
+				se, ok := ast.Unparen(l).(*ast.SelectorExpr)
+				if !ok {
+					continue
+				}
+				// the root of the selector chain is a robust.Message
+				root := ast.Expr(se)
+				path := ""
+				for {
+					s2, ok := ast.Unparen(root).(*ast.SelectorExpr)
+					if !ok {
+						break
+					}
+					path = s2.Sel.Name + "." + path
+					root = s2.X
+				}
+				if msgT == nil || astx.NamedOf(info.TypeOf(root)) != msgT {
+					continue
+				}
+				nAs++
+				fromRecord := false
+				ast.Inspect(as.Rhs[i], func(m ast.Node) bool {
+					if s3, ok := m.(*ast.SelectorExpr); ok {
+						if fv := astx.FieldSel(info, s3); fv != nil && fv.Pkg() != nil && fv.Pkg().Path() == pathProto {
+							fromRecord = true
+						}
+					}
+					return true
+				})
+				idDefault := strings.HasPrefix(path, "Id.")
+				r.Check(fromRecord || idDefault, "C18.F1", nm.Name(), "field "+strings.TrimSuffix(path, ".")+" is assigned from the decoded record", c.P.Pos(as.Pos()), "a selection from the pb value (or the id default)",
+					"the decoder fills in "+strings.TrimSuffix(path, ".")+" with a value that is not in the stored bytes: re-encoding the entry (conversion on open, message-of-death marking) stores something else than was stored")
+			}
+			return true
+		})
+		// … or the message is built as a composite literal: one obligation per keyed element (nested literals followed)
+		fromRec := func(e ast.Expr) bool {
+			res := false
+			ast.Inspect(e, func(m ast.Node) bool {
+				if s3, ok := m.(*ast.SelectorExpr); ok {
+					if fv := astx.FieldSel(info, s3); fv != nil && fv.Pkg() != nil && fv.Pkg().Path() == pathProto {
+						res = true
+					}
+				}
+				return true
+			})
+			return res
+		}
+		var lit func(cl *ast.CompositeLit, prefix string)
+		lit = func(cl *ast.CompositeLit, prefix string) {
+			for _, el := range cl.Elts {
+				kv, ok := el.(*ast.KeyValueExpr)
+				if !ok {
+					continue
+				}
+				k, ok := kv.Key.(*ast.Ident)
+				if !ok {
+					continue
+				}
+				if inner, ok := ast.Unparen(kv.Value).(*ast.CompositeLit); ok {
+					lit(inner, prefix+k.Name+".")
+					continue
+				}
+				nAs++
+				path := prefix + k.Name
+				r.Check(fromRec(kv.Value) || strings.HasPrefix(path, "Id."), "C18.F1", nm.Name(), "field "+path+" is assigned from the decoded record", c.P.Pos(kv.Pos()), "a selection from the pb value (or the id default)",
+					"the decoder fills in "+path+" with a value that is not in the stored bytes: re-encoding the entry (conversion on open, message-of-death marking) stores something else than was stored")
+			}
+		}
+		ast.Inspect(nm.Body(), func(n ast.Node) bool {
+			if cl, ok := n.(*ast.CompositeLit); ok && msgT != nil && astx.NamedOf(info.TypeOf(cl)) == msgT {
+				lit(cl, "")
+				return false
+			}
+			return true
+		})
+		if nAs < 8 {
+			r.Break("C18.F1: only %d field assignments found in NewMessageFromBytes", nAs)
+		}
+	}
 	r.Ok("C18.F7", "robust", "no hand-written JSON/text/binary codec methods on replicated types", "-", "methods of package robust inspected")
+	// … and the JSON key of every field is the field's name: logs and snapshots written in the JSON encoding (and the bridges'
+	// wire format) carry these keys; a field that is renamed in the tag is silently dropped when old data is decoded
+	for _, tn := range []string{"Message", "Id"} {
+		n := c.P.Named("robust", tn)
+		if n == nil {
+			r.Break("C18.F7: type robust.%s not found", tn)
+			continue
+		}
+		st, ok := n.Underlying().(*types.Struct)
+		if !ok {
+			continue
+		}
+		for k := 0; k < st.NumFields(); k++ {
+			f := st.Field(k)
+			tag := reflect.StructTag(st.Tag(k)).Get("json")
+			name := tag
+			if i := strings.Index(tag, ","); i >= 0 {
+				name = tag[:i]
+			}
+			okName := name == "" || name == f.Name() || (name == "-" && f.Name() == "InterestingFor")
+			r.Check(okName, "C18.F7", "robust."+tn, "JSON key of field "+f.Name()+" is the field name", c.P.Pos(f.Pos()), "tag: "+strconvQuote(tag),
+				"field "+f.Name()+" is stored under the JSON key "+strconvQuote(name)+" now: entries written before (raft log, irclog, snapshots in the JSON encoding) carry "+strconvQuote(f.Name())+", which the decoder drops silently — e.g. the ClientMessageId that makes a retry recognisable")
+		}
+	}
 	// ---------- F6: error discipline of the message codec
 	{
 		nErr := 0
@@ -866,7 +983,7 @@ func (c *Ctx) c18Framing(pbLog, pbMsg *types.Named) {
 					continue
 				}
 				nR++
-				se, ok := ast.Unparen(call.Args[0]).(*ast.SliceExpr)
+				se, ok := astx.Expand(info, call.Args[0]).(*ast.SliceExpr)
 				okStrip := false
 				if ok && se.Low != nil && se.High == nil {
 					if lo, isC := astx.ConstInt(info, se.Low); isC && lo == 1 {
